@@ -554,7 +554,7 @@ Proof.
   destruct (r_subs r) as [|s0 t] eqn:E; [reflexivity|].
   destruct (group_shape r s0 t Hr E) as (G1 & G2 & G3 & G4). rewrite E in *.
   rewrite G4, firstn_all, skipn_all.
-  rewrite subs_set_ok by assumption. cbn [bind]. now rewrite app_nil_r.
+  rewrite subs_set_ok by assumption. cbn [bind subs_zero]. now rewrite app_nil_r.
 Qed.
 
 Lemma reg_set_err r V raw : wf_reg r -> ~ in_range (s_width (r_base r)) V -> reg_set r V raw = Err 1%N.
@@ -1227,15 +1227,6 @@ Lemma alt_reverse_refuted_lemma :
                      t_set g t v false = Ok g' /\ t_get g' t false <> Ok v.
 Proof.
   exists ex_alt_plain, (Top 0%nat). eexists. exists (2 ^ 256). eexists.
-  split; [vm_compute; reflexivity|]. split; [reflexivity|]. split; [cbn; split; [apply Z.leb_le|apply Z.ltb_lt]; vm_compute; reflexivity|].
-  split; [vm_compute; reflexivity|]. vm_compute. discriminate.
-Qed.
-
-Lemma alt_group_stale_refuted_lemma :
-  exists g t s v g', wf_regs_b true g = true /\ t_sreg g t = Some s /\ in_range (s_width s) v /\
-                     t_set g t v false = Ok g' /\ t_get g' t false <> Ok v.
-Proof.
-  exists (ex_alt_group false false false 1), (Top 0%nat). eexists. exists 7. eexists.
   split; [vm_compute; reflexivity|]. split; [reflexivity|]. split; [cbn; split; [apply Z.leb_le|apply Z.ltb_lt]; vm_compute; reflexivity|].
   split; [vm_compute; reflexivity|]. vm_compute. discriminate.
 Qed.
